@@ -33,6 +33,10 @@
 (* (pipeline A: one implementation test per transition of the state graph); the same    *)
 (* properties are also stated one by one (RefinesOracle, OuterElementWins, ...).        *)
 (* Shapes the statement does not fix (DriftShape) are emitted with R's prediction only. *)
+(* The machine has no memory besides the view: the result of GetItem is a function of    *)
+(* (view, selector CONTENT).  The driver therefore replays list selectors through one    *)
+(* re-used python object that is edited in place between two lookups on the same table   *)
+(* (call history + mutated input) and still expects exactly the emitted result.          *)
 EXTENDS Integers, Sequences, FiniteSets, TLC, Json, IOUtils, SequencesExt
 
 Batch == JsonDeserialize(IOEnv.BATCH_FILE)
@@ -270,6 +274,9 @@ RUpdate(v, ix) ==
 \* ValueError (SliceError and the shape check of a new table are ValueErrors) into StateActionIndexError;
 \* an AssertionError (two ellipses) passes through
 WrapMDP(fam) == IF fam \in {"Key", "Index", "Domain", "Value", "Slice"} THEN "SAIE" ELSE fam
+\* AbstractTable.get(key, default): [] with KeyError (only) turned into the default. The MDP tables raise
+\* StateActionIndexError (an IndexError, not a KeyError), so their get never answers with the default.
+GetOutcome(st, fam) == IF st = "ok" THEN "value" ELSE IF fam = "Key" THEN "default" ELSE "raise"
 \* numpy: integer, slice, integer-list -> the indexed axis comes first; the code keeps the index in field order
 QuirkIx(ix) == Len(ix) = 3 /\ ix[1].k = "int" /\ ix[2].k = "slice" /\ ix[3].k = "list"
 RSel(T, v, sel) ==
@@ -378,7 +385,8 @@ TransRec(T, D, e) ==
   [sel |-> e.sel, strict |-> Strict(D, e.sel), foreign |-> Foreign(D, e.sel), outer |-> IsOuterElem(D, e.sel),
    cls |-> Classes(D, e.sel),
    ost |-> e.o.st, odoms |-> e.o.d.doms, ocells |-> IF e.o.st = "ok" THEN CellSeq(e.o.d) ELSE <<>>,
-   rst |-> e.r.st, rfam |-> e.r.fam, rfamMdp |-> WrapMDP(e.r.fam), same |-> same, garbled |-> e.r.garbled,
+   rst |-> e.r.st, rfam |-> e.r.fam, rfamMdp |-> WrapMDP(e.r.fam),
+   rget |-> GetOutcome(e.r.st, e.r.fam), rgetMdp |-> GetOutcome(e.r.st, WrapMDP(e.r.fam)), same |-> same, garbled |-> e.r.garbled,
    \* surviving (open) fields of the result; is it a row: every field but the last one fixed
    names |-> IF e.r.st = "ok" THEN OpenSeq(e.r.view) ELSE <<>>,
    row |-> e.r.st = "ok" /\ OpenSeq(e.r.view) = <<NF(T)>> /\ NF(T) >= 2,
